@@ -2,7 +2,7 @@
 CFG = {'harness': 'det',
  'axioms': [],
  'uses_gen': False,
- 'rule': 'all 256 top bytes x 6 low patterns and random words (classification); scaler-block length boundaries; '
+ 'rule': 'words of every class (incl. tag-like words whose low 24 bits look like another block length) followed by 0..300 valid words; all 256 top bytes x 6 low patterns and random words (classification); scaler-block length boundaries; '
          'streams from the grammar (timestamps, markers, scaler blocks whose bodies imitate words/tags, invalid words, '
          'truncated tails) parsed whole, under every single cut (sampled for long streams in quick), random multi-cuts '
          'and the all-1-byte-pieces schedule, fed with the resume protocol. non-trivial = at least 4 bytes; distinct = '
